@@ -11,5 +11,6 @@ def run(ctx):
     ctx.cov["rule"] = ("per message type: boundary value assignments (NaN payloads, -0, min/max, strings with NUL / over length, enums "
                        "above wire width) encoded and decoded in both versions; arbitrary payloads of lengths {0,1,2,base-1..base+1,"
                        "ext-1..ext+1,255,300} x {zero,0xFF,random}; valid encodings with trailing zeros removed/appended; payload handed "
-                       "to Read as a window of a larger 0xAA-filled array; distinct = (definition, version, shape) classes")
+                       "to Read as a window of a larger 0xAA-filled array; every successful decode is followed by the caller editing every field of "
+                       "the returned message and decoding the same payload again (must give the same values); distinct = (definition, version, shape) classes")
     ctx.assumptions += ["spec-level theorem (MC_Message): the v2 decoder is insensitive to trailing zeros removed/appended and to bytes beyond the extended size, so comparing each real Read against Decode covers those clauses"]
